@@ -134,7 +134,7 @@ pub fn catalogue() -> Vec<CatOp> {
     op!(v, "l2.insert_text(1)", false, |s: &Seed| res(s.l2.insert_character_content_item("more", 1)));
     op!(v, "l2.remove_text(0)", false, |s: &Seed| res(s.l2.remove_character_content_item(0)));
     op!(v, "file.set_filename(b.arxml)", false, |s: &Seed| res(s.file.set_filename("b.arxml")));
-    op!(v, "p10.create_at(ELEMENTS,1)", false, |s: &Seed| res(s.p10.create_sub_element_at(ElementName::Elements, 1)));
+    op!(v, "p10.create_at(ELEMENTS,2)", false, |s: &Seed| res(s.p10.create_sub_element_at(ElementName::Elements, 2)));
     op!(v, "els.create_named(CAN-CLUSTER,n)", false, |s: &Seed| res(s.els.create_named_sub_element(ElementName::CanCluster, "n")));
     op!(v, "els.create_named(CAN-CLUSTER,c2)", false, |s: &Seed| res(s.els.create_named_sub_element(ElementName::CanCluster, "c2")));
     op!(v, "pkgs.create_named(AR-PACKAGE,p2)", false, |s: &Seed| res(s.pkgs.create_named_sub_element(ElementName::ArPackage, "p2")));
@@ -148,7 +148,7 @@ pub fn catalogue() -> Vec<CatOp> {
     op!(v, "pkgs.remove(p1)", false, |s: &Seed| res(s.pkgs.remove_sub_element(s.p1.clone())));
     op!(v, "c.set_item_name(c2)", false, |s: &Seed| res(s.c.set_item_name("c2")));
     op!(v, "p1.set_item_name(p2)", false, |s: &Seed| res(s.p1.set_item_name("p2")));
-    op!(v, "r.set_reference_target(s)", false, |s: &Seed| res(s.r.set_reference_target(&s.s)));
+    op!(v, "r.set_reference_target(c)", false, |s: &Seed| res(s.r.set_reference_target(&s.c)));
     op!(v, "r.set_character_data(/p1/x)", false, |s: &Seed| res(s.r.set_character_data("/p1/x")));
     op!(v, "r.remove_character_data", false, |s: &Seed| res(s.r.remove_character_data()));
     op!(v, "c.set_comment", false, |s: &Seed| {
@@ -388,6 +388,9 @@ pub fn run_prop(prop: &'static str, tier: Tier) -> i32 {
     }
     ctx.count("lock_model_conformance_situations", 14);
     let cat = catalogue();
+    // what every operation does when it runs alone on the seed (an operation that always fails would make its tuples vacuous)
+    let alone: Vec<String> = cat.iter().map(|o| format!("{} -> {}", o.name, { let r = (o.f)(&mk_seed()); if r.len() > 40 { format!("{}...", &r[..40]) } else { r } })).collect();
+    ctx.sample(json!({"catalogue_operations_run_alone_on_the_seed": alone}));
     let mut tuples: Vec<Vec<usize>> = vec![];
     for a in 0..cat.len() {
         for b in a..cat.len() {
